@@ -17,6 +17,7 @@ LawRemaining == RemainingExact(st)
 LawSpace == SpaceExact(st)
 LawWriteRead == WriteReadBack(st)
 LawSeek == SeekContract(st)
+LawExtend == ExtendContract(st)
 LawReverse == ReverseNoop(st)
 
 \* adapters: every source sequence of at most MaxLen + 1 entries over words and NONE
@@ -29,6 +30,7 @@ Emit == EmitAdapters /\ PrintT(<<"CASE", ToJson(
      rs |-> Res(ReadStack(st)),
      rq |-> IF HasQueue(st) THEN <<Res(ReadQueue(st))>> ELSE <<>>,
      w |-> Res(Write(st, 7)),
+     ext |-> [n \in 1..3 |-> Res(Extend(st, SubSeq(<<7, 8, 7>>, 1, n)))],
      seek |-> [p \in 1..(Len(st.buf) + 3) |-> Res(Seek(st, p - 1))],
      remS |-> RemainingStack(st), remQ |-> IF HasQueue(st) THEN RemainingQueue(st) ELSE 0,
      space |-> IF Bounded(st) THEN SpaceLeft(st) ELSE 0,
